@@ -654,6 +654,85 @@ def k5(prog, rep):
     rep.check(outs == {0: 0, 1: 8, 2: 16, 3: 24}, "K5-crc", "Final writes the state least-significant byte first", fi.loc, "%s" % outs, function="CRC32C_Final", construct="final")
 
 
+def k5_tables_ready(rep, tag=""):
+    """The portable CRC32C tables are filled before anything is looked up in them, in every build configuration: on each path
+    through CRC32C_Init the table generator init() is called -- directly, or through a callee on each of whose paths the same
+    holds -- or the path passes a test of a variable with static storage (the run-once flag).  Decided in the host configuration
+    and in the one with no CPU feature enabled, where everything inside `#ifdef HWACCEL` is absent (the suite builds only the
+    former)."""
+    for cfg in (cdb.HOST, cdb.Config("nofeat", features=[])):
+        prog = ir.Program(["alg/crc32c.c"], cfg)
+        u = prog.unit("alg/crc32c.c")
+        ini = u.func("CRC32C_Init")
+        if ini is None or u.func("init") is None:
+            raise cdb.AnalysisBroken("anchor missing: CRC32C_Init / init in alg/crc32c.c [%s]" % cfg.name)
+        statics = set()
+        for f in u.funcs:
+            for e in f.all_elems():
+                if e.cls == "DeclRefExpr" and e.decl and e.decl.get("kind") in ("global", "staticlocal"):
+                    statics.add(e.decl.get("id"))
+        memo = {}
+
+        def must(f, stack=()):
+            """(True, None) when every path of f calls init(), through callees, or passes a once-flag test; else (False, exit)"""
+            if f.name in memo:
+                return memo[f.name]
+            if f.name in stack:
+                return (False, None)
+
+            def tr(st, e):
+                if st:
+                    return st
+                if e.cls == "CallExpr" and e.callee:
+                    if e.callee == "init":
+                        return True
+                    g = u.func(e.callee)
+                    if g is not None and g.file == u.path and must(g, stack + (f.name,))[0]:
+                        return True
+                return st
+
+            def qualifies(e):
+                if e.cls != "CallExpr" or not e.callee:
+                    return False
+                if e.callee == "init":
+                    return True
+                g = u.func(e.callee)
+                return g is not None and g.file == u.path and must(g, stack + (f.name,))[0]
+            callblocks = set(e.block.id for e in f.all_elems() if qualifies(e))
+
+            def can_reach(b):
+                return b is not None and (b in callblocks or bool(callblocks & f.reach_from(b)))
+
+            def rf(st, cond, kind):
+                # a run-once test: the side from which the generator cannot be reached is the "already done" side -- exempt,
+                # provided the other side is the one that leads to it
+                if st or kind not in (True, False):
+                    return st
+                if not any(t[0] == "v" and len(t) > 2 and t[2] in statics for t in ir.subterms(norm(cond))):
+                    return st
+                sx = cond.block.succs
+                if len(sx) != 2:
+                    return st
+                this, other = (sx[0], sx[1]) if kind else (sx[1], sx[0])
+                if not can_reach(this) and can_reach(other):
+                    return True
+                return st
+            from ..dataflow import Solver
+            sv = Solver(f, False, tr, rf, lambda a, b: a and b).run()
+            # the state in which the exit block is entered covers explicit returns and falling off the end alike (paths that
+            # end in abort() never get there)
+            at_exit = sv.IN.get(f.exit)
+            bad = [r for r in f.returns() if sv.state_before(r) is False]
+            res = (at_exit is not False, bad[0] if bad else None)
+            memo[f.name] = res
+            return res
+        # void functions have an implicit return: make sure returns() covers it; otherwise fall back to the last elements
+        ok, where = must(ini)
+        rep.check(ok, "K5-crc", "the tables are filled before use: every path through CRC32C_Init reaches init() or a run-once test [%s]%s" % (cfg.name, tag), (where.where if where is not None else ini.loc),
+                  "in this configuration a path leaves CRC32C_Init without the table generator having been called and without a run-once test: every look-up reads zeros",
+                  function="CRC32C_Init", construct="tables-ready:" + cfg.name)
+
+
 def k10_encap(prog, rep, only=None):
     """The block buffer, the length counter and the chaining state of a hash context are touched only by that hash's own
     Init / Update / Pad / Final routines (whose handling of them K2, K6, K8 decide): nothing else in the unit -- the HMAC layer,
@@ -970,6 +1049,7 @@ def run(tier):
         if k11_vect(prog, rep) < 6:
             rep.defer_broken("K11: fewer than 6 word-vector helpers found in the hash units")
         ctx_typestate(prog, rep, ["alg/sha256.c", "alg/sha1.c", "alg/md5.c"])
+    k5_tables_ready(rep)
     n = len(configs)
     rep.require_min("K9-ctxstate", 12 * n)
     rep.require_min("K1-const", 5 * n)
